@@ -600,3 +600,40 @@ VARIANTS.append({"id": "V-C17-1", "kind": "benign", "patch": "/verif/seeded/C17-
 VARIANTS.append({"id": "B111", "kind": "break", "rules": ["C17-O"], "patch": "/verif/seeded/C17-1/patch.diff",
                  "edits": [(IGU, "    return network.infer_valid_graph()", "    return BooleanNetwork.from_aeon(network.to_aeon()).infer_valid_graph()")],
                  "what": "context of a name-ordered copy used to translate the caller's network"})
+
+
+# ------------------------------------------------------------------------------------------ round 3: symbolic encoder rules
+B("B200", "C10-B", [(PN, "            pn.add_edge(places[var_name][0], t_name)  # type: ignore[reportUnknownMemberType] # noqa\n            pn.add_edge(t_name, places[var_name][1])",
+                     "            pn.add_edge(places[var_name][1], t_name)  # type: ignore[reportUnknownMemberType] # noqa\n            pn.add_edge(t_name, places[var_name][0])")],
+  "an up-transition moves the token from the one place to the zero place")
+B("B201", "C10-B", [(PN, "            pn.add_edge(t_name, places[variable_str][value])  # type: ignore[reportUnknownMemberType] # noqa\n", "")],
+  "condition literals consume their token (no arc back)")
+B("B202", "C10-B", [(PN, "            if variable_str == var_name:\n                continue\n", "            if variable_str != var_name:\n                continue\n")],
+  "only the changed variable's own literal gets read arcs")
+B("B203", "C10-A", [(PN, "        places[name] = (n_name, p_name)", "        places[name] = (p_name, n_name)")], "place table stores (one place, zero place)")
+B("B204", "C10-A", [(PN, "        n_bdd = function_bdd.l_not().l_and(var_bdd)", "        n_bdd = function_bdd.l_not().l_and(var_bdd.l_not())")],
+  "down-transitions from NOT f AND NOT x")
+B("B205", "C10-D", [(PN, "        for tr in result.successors(inverse_place):  # type: ignore", "        for tr in result.successors(fixed_place):  # type: ignore")],
+  "consumers of the fixed place removed instead of consumers of the inverse place")
+B("B206", "C10-D", [(PN, "        inverse_place = variable_to_place(var, not bool(value))", "        inverse_place = variable_to_place(var, bool(value))")],
+  "inverse place = fixed place")
+B("B207", "C10-D", [(PN, "    result = copy.deepcopy(petri_net)", "    result = petri_net")], "the caller's Petri net is modified")
+B("B208", "C10-D", [(PN, "        result.remove_node(inverse_place)  # type: ignore\n", "")], "the inverse place survives")
+B("B209", "C10-E", [(SPACE, "            if name in space:\n                new_bn.set_update_function(", "            if space.get(name):\n                new_bn.set_update_function(")],
+  "free input fixed to 0 keeps its free update function (truthiness instead of membership)")
+B("B210", "C10-E", [(SPACE, "    space = percolate_space(symbolic_network, space)\n\n    # Make a copy of the BN", "    percolate_space(symbolic_network, space)\n\n    # Make a copy of the BN")],
+  "functions restricted to the unpercolated space")
+B("B211", "C10-E", [(SPACE, "                    var, UpdateFunction.mk_const(new_bn, space[name])", "                    var, UpdateFunction.mk_const(new_bn, 1 - space[name])")],
+  "free input fixed to the opposite constant")
+B("B212", "C09-T4", [(TRAP, "            if place_to_variable(node)[0] not in ensure_subspace:\n                free_places.append(node)", "            free_places.append(node)")],
+  "places of ensured variables count as free places")
+B("B213", "C09-T4", [(TRAP, "        if problem == \"fix\":\n            ctl.add(f\"{p_name} ; {n_name}.\")", "        if problem != \"min\":\n            ctl.add(f\"{p_name} ; {n_name}.\")")],
+  "totality also required for maximal trap spaces")
+B("B214", "C09-T4", [(TRAP, "                for predecessor in petri_net.predecessors(node):  # type: ignore # noqa\n                    if predecessor not in successors:\n                        ctl.add(f\"{s_disjunction} :- {predecessor}.\")",
+                       "                for predecessor in petri_net.predecessors(node):  # type: ignore # noqa\n                    if predecessor not in successors:\n                        ctl.add(f\"{predecessor} :- {s_disjunction}.\")")],
+  "trap rule head and body exchanged")
+B("B215", "C09-T2", [(TRAP, "                successors = list(petri_net.successors(node))  # type: ignore # noqa", "                successors = list(petri_net.predecessors(node))  # type: ignore # noqa")],
+  "time-reversed generator reads predecessors twice")
+B("B216", "C09-T3", [(TRAP, "        return len(results) < solution_limit", "        return len(results) <= solution_limit", 2)], "callback lets the result grow to limit + 1")
+B("B217", "C13-WHILE", [(TGT, "                if s not in seen:\n                    seen.add(s)\n                    next_level.append(s)", "                if s not in seen:\n                    next_level.append(s)")],
+  "target expansion: successors enqueued without being recorded as seen")
